@@ -5,14 +5,9 @@ about. The Python loops that fill the object are folds over the parameter list i
 over a structure; the proofs are simulations between the two state representations.
 -/
 import Simfile.Gen.Code.Load
+import Simfile.Props.GenEq.Basic
 namespace Simfile.GenEq
 open Simfile
-
-theorem foldlM_ok {σ α ε} (f : σ → α → σ) (l : List α) (init : σ) :
-    l.foldlM (fun s x => (Except.ok (f s x) : Except ε σ)) init = Except.ok (l.foldl f init) := by
-  induction l generalizing init with
-  | nil => rfl
-  | cons a l ih => simp only [List.foldlM_cons, List.foldl_cons]; exact ih _
 
 theorem smChartFromMsd_eq (values : List Str) : GenCode.smChartFromMsd [] none values = Simfile.smChartFromMsd values := by
   unfold GenCode.smChartFromMsd Simfile.smChartFromMsd
@@ -22,27 +17,6 @@ theorem smChartFromMsd_eq (values : List Str) : GenCode.smChartFromMsd [] none v
     have := foldlM_ok (ε := Err) (fun (d : Dict) (kv : Str × Str) => Dict.set d kv.1 (some (strip kv.2))) (T.smChartProperties.zip values) []
     simp only [this]
     by_cases h2 : values.length > T.smChartProperties.length <;> simp [h2, Except.bind]
-
-theorem foldlM_sim {σ τ α ε} (R : σ → τ) (f : σ → α → Except ε σ) (g : τ → α → Except ε τ)
-    (h : ∀ s a, (f s a).map R = g (R s) a) (l : List α) (s : σ) :
-    (l.foldlM f s).map R = l.foldlM g (R s) := by
-  induction l generalizing s with
-  | nil => rfl
-  | cons a l ih =>
-    simp only [List.foldlM_cons]
-    have hs := h s a
-    cases hf : f s a with
-    | error e => rw [hf] at hs; rw [← hs]; rfl
-    | ok s' => rw [hf] at hs; rw [← hs]; exact ih s'
-
-theorem foldl_sim {σ τ α} (R : σ → τ) (f : σ → α → σ) (g : τ → α → τ)
-    (h : ∀ s a, R (f s a) = g (R s) a) (l : List α) (s : σ) : R (l.foldl f s) = l.foldl g (R s) := by
-  induction l generalizing s with
-  | nil => rfl
-  | cons a l ih => simp only [List.foldl_cons]; rw [ih, h]
-
-theorem bind_ok_eq_map {ε α β} (x : Except ε α) (f : α → β) : Except.bind x (fun a => Except.ok (f a)) = x.map f := by
-  cases x <;> rfl
 
 theorem loadedValue_gen (k : Str) (p : Param) :
     (if Param.value p = none then (none : Option Str)
